@@ -242,7 +242,16 @@ impl AutosarModel {
         let root = self.root_element();
         let files: HashSet<WeakArxmlFile> = self.files().map(|f| f.downgrade()).collect();
 
-        Self::merge_element(&root, &files, new_root, &new_file)?;
+        // the merge restricts elements that only exist in the model to the files of their parent; if the merge fails then
+        // these restrictions must be taken back, since a failed load should not have any effect
+        let mut restricted_elements = Vec::new();
+        let result = Self::merge_element(&root, &files, new_root, &new_file, &mut restricted_elements);
+        if result.is_err() {
+            for element in restricted_elements {
+                element.0.write().file_membership.clear();
+            }
+        }
+        result?;
         self.root_element().0.write().file_membership.insert(new_file);
 
         Ok(())
@@ -253,6 +262,7 @@ impl AutosarModel {
         files: &HashSet<WeakArxmlFile>,
         parent_b: &Element,
         new_file: &WeakArxmlFile,
+        restricted_elements: &mut Vec<Element>,
     ) -> Result<(), AutosarDataError> {
         let mut iter_a = parent_a.sub_elements().enumerate();
         let mut iter_b = parent_b.sub_elements();
@@ -359,13 +369,14 @@ impl AutosarModel {
             let mut elem_locked = element.0.write();
             if elem_locked.file_membership.is_empty() {
                 files.clone_into(&mut elem_locked.file_membership);
+                restricted_elements.push(element.clone());
             }
         }
         // elements in elements_b_only are not present in the model yet, so they need to be added
         Self::import_new_items(parent_a, elements_b_only, new_file, min_ver_b)?;
 
         // recurse for sub elements that are present on both sides: these need to be checked and merged
-        Self::merge_sub_elements(elements_merge, files, new_file)?;
+        Self::merge_sub_elements(elements_merge, files, new_file, restricted_elements)?;
 
         Ok(())
     }
@@ -509,6 +520,7 @@ impl AutosarModel {
         elements_merge: Vec<(Element, Element)>,
         files: &HashSet<WeakArxmlFile>,
         new_file: &WeakArxmlFile,
+        restricted_elements: &mut Vec<Element>,
     ) -> Result<(), AutosarDataError> {
         for (elem_a, elem_b) in elements_merge {
             // get the list of files that the element from a is present in
@@ -519,7 +531,7 @@ impl AutosarModel {
             };
 
             // merge the two elements
-            AutosarModel::merge_element(&elem_a, &files, &elem_b, new_file)?;
+            AutosarModel::merge_element(&elem_a, &files, &elem_b, new_file, restricted_elements)?;
 
             // update the file membership of the merged element, if there was any
             let mut elem_a_locked = elem_a.0.write();
